@@ -76,6 +76,7 @@ type workerOut struct {
 	Failure     *replayFile       `json:"failure,omitempty"`
 	Harness     []string          `json:"harness_errors,omitempty"`
 	TraceHashes map[string]uint64 `json:"trace_hashes,omitempty"`
+	Unconfirmed int64             `json:"unconfirmed,omitempty"`
 }
 
 type result struct {
@@ -509,13 +510,12 @@ func check(id, tier string) {
 	if regressions > 0 {
 		code = 1
 	}
-	var reported []string
+	var reported, diverged []string
 	seenClass := map[string]bool{}
 	for _, f := range fails {
 		if seenClass[f.Expect.Class] {
 			continue
 		}
-		seenClass[f.Expect.Class] = true
 		f.Tree = tree
 		dir := filepath.Join(V, "replays", id)
 		os.MkdirAll(dir, 0o755)
@@ -538,12 +538,26 @@ func check(id, tier string) {
 			}
 		}
 		if okN != 2 {
-			trouble("REPLAY-DIVERGED: %s does not reproduce its violation in fresh processes (%d/2)", path, okN)
+			// another worker's failure of the same class may replay; if none does
+			// this is trouble, not a violation
+			diverged = append(diverged, fmt.Sprintf("%s (%d/2)", path, okN))
+			continue
 		}
+		seenClass[f.Expect.Class] = true
 		fmt.Printf("violation: %s/%s at step %d: %s\n", f.Expect.Property, f.Expect.Class, f.Expect.Step, f.Expect.Msg)
 		fmt.Printf("VIOLATION property=%s replay=%s\n", id, path)
 		reported = append(reported, path)
 		code = 1
+	}
+	if len(diverged) > 0 && len(reported) == 0 {
+		trouble("REPLAY-DIVERGED: %d failing case(s) do not reproduce their violation in fresh processes: %s", len(diverged), strings.Join(diverged, ", "))
+	}
+	var unconfirmed int64
+	for _, o := range outs {
+		unconfirmed += o.Unconfirmed
+	}
+	if unconfirmed > 0 && len(reported) == 0 {
+		trouble("HISTORY-DEPENDENT: %d run(s) violated the property but not when re-executed at once from a clean process state (emptied sync.Pools); no run failed reproducibly", unconfirmed)
 	}
 	raceNote := ""
 	if code == 0 && len(cfg.RaceEngines) > 0 {
